@@ -225,7 +225,7 @@ func validateProtocolChanges(changes map[string]DefinitionChange, saveWarning, s
 					typeCanBeEmpty := false
 					switch t := GetUnderlyingType(step.Type).(type) {
 					case *GeneralizedType:
-						if t.Cases.HasNullOption() {
+						if t.Dimensionality == nil && t.Cases.HasNullOption() {
 							typeCanBeEmpty = true
 						} else if t.Dimensionality != nil {
 							switch t.Dimensionality.(type) {
